@@ -304,6 +304,77 @@ func isRangeElemOf(v ssa.Value, base ssa.Value) bool {
 	return rangeLowered(boundSite{fn: ld.Parent(), ins: ia, base: ia.X, idx: ia.Index, kind: "index"})
 }
 
+// appendedDescr: what is appended, named by its role where that is recognisable:
+// an item of the function's evaluated argument (the element of a collection
+// that an Expression.Evaluate call produced, possibly through in-repo helpers).
+func appendedDescr(x ssa.Value) string {
+	if x == nil {
+		return "spread"
+	}
+	if ld, ok := stripIface(x).(*ssa.UnOp); ok {
+		if ia, ok := ld.X.(*ssa.IndexAddr); ok && fromEvaluate(ia.X, 0) {
+			return "item of the evaluated argument"
+		}
+	}
+	return originDescr(x)
+}
+
+// fromEvaluate: v is the collection result of an Expression.Evaluate invoke,
+// directly or as the result handed back by in-repo helpers.
+func fromEvaluate(v ssa.Value, depth int) bool {
+	if depth > 4 {
+		return false
+	}
+	switch x := v.(type) {
+	case *ssa.Extract:
+		return fromEvaluateCall(x.Tuple, x.Index, depth)
+	case *ssa.Call:
+		return fromEvaluateCall(x, 0, depth)
+	case *ssa.ChangeType:
+		return fromEvaluate(x.X, depth+1)
+	case *ssa.Phi:
+		for _, e := range x.Edges {
+			if c, ok := e.(*ssa.Const); ok && c.IsNil() {
+				continue
+			}
+			if !fromEvaluate(e, depth+1) {
+				return false
+			}
+		}
+		return len(x.Edges) > 0
+	}
+	return false
+}
+
+func fromEvaluateCall(t ssa.Value, idx int, depth int) bool {
+	c, ok := t.(*ssa.Call)
+	if !ok {
+		return false
+	}
+	if c.Common().IsInvoke() {
+		return c.Common().Method.Name() == "Evaluate" && idx == 0
+	}
+	sc := c.Common().StaticCallee()
+	if sc == nil || !inRepoFn(sc) || len(sc.Blocks) == 0 {
+		return false
+	}
+	found := false
+	for _, b := range sc.Blocks {
+		ret, ok := b.Instrs[len(b.Instrs)-1].(*ssa.Return)
+		if !ok || idx >= len(ret.Results) {
+			continue
+		}
+		if k, ok := ret.Results[idx].(*ssa.Const); ok && k.IsNil() {
+			continue // error path
+		}
+		if !fromEvaluate(ret.Results[idx], depth+1) {
+			return false
+		}
+		found = true
+	}
+	return found
+}
+
 func ruleSET1(p *Program) *RuleResult {
 	r := newResult("SET1")
 	for _, name := range filterFunctions {
@@ -327,7 +398,7 @@ func ruleSET1(p *Program) *RuleResult {
 				x := appendedValue(c.Common().Args[1])
 				n++
 				r.count("appends", 1)
-				key := "impl." + name + "|append(" + originDescr(x) + ")"
+				key := "impl." + name + "|append(" + appendedDescr(x) + ")"
 				if x != nil && isRangeElemOf(stripIface(x), input) {
 					r.ok(key, name+" appends the current item of the range over its input", p.instrPos(ins), "value provenance: element of the lowered range loop over the input parameter", true)
 				} else {
